@@ -902,7 +902,7 @@ func (f *Frame) tripCount(h *ssa.BasicBlock, body map[*ssa.BasicBlock]bool) Poly
 				}
 			}
 			// for i := 0; i < n; i++
-			if ph, ok := cmp.X.(*ssa.Phi); ok && ph.Block() == h && !body[valueBlock(cmp.Y)] {
+			if ph, ok := cmp.X.(*ssa.Phi); ok && ph.Block() == h && (!body[valueBlock(cmp.Y)] || invariantLen(cmp.Y, body)) {
 				initOK, stepOK := false, false
 				for i, e := range ph.Edges {
 					if !body[h.Preds[i]] {
@@ -922,6 +922,16 @@ func (f *Frame) tripCount(h *ssa.BasicBlock, body map[*ssa.BasicBlock]bool) Poly
 		}
 	}
 	return f.S.freshAtom("unknown", "trip count of data-dependent loop at "+f.S.P.Pos(firstPos(h)), nil)
+}
+
+// invariantLen: v is len(X) re-evaluated in the loop, X being defined outside it (the length of an SSA
+// slice value cannot change).
+func invariantLen(v ssa.Value, body map[*ssa.BasicBlock]bool) bool {
+	c, ok := engine.IsBuiltinCall(v, "len")
+	if !ok {
+		return false
+	}
+	return !body[valueBlock(c.Call.Args[0])]
 }
 
 func firstPos(b *ssa.BasicBlock) token.Pos {
